@@ -654,6 +654,25 @@ func GenLSpec(r *Rng, o LGenOpts) *LSpec {
 			s.Modes[k].Rules = append(s.Modes[k].Rules, ru)
 		}
 	}
+	if r.Chance(1, 6) {
+		// a mode whose every rule starts with the same starred prefix (start state with a self loop)
+		k := r.Intn(len(s.Modes))
+		pre := &LTerm{Kind: LClass, Class: &LClassExpr{Neg: true, Items: []RRange{{'\n', '\n'}, {';', ';'}}}, Card: "*"}
+		if r.Bool() {
+			pre = &LTerm{Kind: LLit, Lit: []int{'a'}, Card: "*"}
+		}
+		keep := 1 + r.Intn(2)
+		if keep < len(s.Modes[k].Rules) {
+			s.Modes[k].Rules = s.Modes[k].Rules[:keep]
+		}
+		for i, ru := range s.Modes[k].Rules {
+			end := []int{'\n'}
+			if i == 1 {
+				end = []int{';'}
+			}
+			ru.Expr = &LExpr{Alts: [][]*LTerm{{pre, {Kind: LLit, Lit: end}}}}
+		}
+	}
 	s.BlockAt = make([]int, len(s.Modes))
 	for k := 1; k < len(s.Modes); k++ {
 		s.BlockAt[k] = r.Intn(len(s.Modes[0].Rules) + 1)
@@ -705,6 +724,21 @@ func GenLSpec(r *Rng, o LGenOpts) *LSpec {
 			}
 			if k > 0 && r.Chance(1, 3) {
 				acts = append(acts, LAct{Kind: "pop"})
+			}
+			if k > 0 && len(s.Modes) > 1 && r.Chance(1, 3) {
+				// replace the current mode / nested combinations: several mode actions on one rule
+				acts = nil
+				na := 2 + r.Intn(2)
+				depth := 1 // at least one mode is on the stack inside a non-default mode (usually)
+				for x := 0; x < na; x++ {
+					if depth > 0 && r.Bool() {
+						acts = append(acts, LAct{Kind: "pop"})
+						depth--
+					} else {
+						acts = append(acts, LAct{Kind: "push", Mode: r.Intn(len(s.Modes))})
+						depth++
+					}
+				}
 			}
 			if ru.Frag {
 				switch r.Intn(4) {
